@@ -280,6 +280,18 @@ def bedrockStatus (binding : Bytes) : Res BedrockResponse :=
            id := more[0]?, map := more[1]?, gameMode, serverType := .bedrock }
   | _ => .err .packetBad
 
+/-- the declared length must be what is left; the rest is the status string -/
+def bedrockBody (remainingLen : Nat) : Par BedrockResponse := do
+  let rem ← remainingLength
+  Par.lift (errorByExpectedSize remainingLen rem)
+  let binding ← readCStr
+  Par.lift (bedrockStatus binding)
+
+/-- the big-endian length in front of the status string (`switch_endian_chunk(2)?.read::<u16>()`) -/
+def bedrockLength : Par Nat := do
+  let chunk ← switchEndianChunk 2
+  Par.lift ((readUnsigned .big 2).run chunk)
+
 /-- the body of `Bedrock::get_info_impl` after the receive -/
 def bedrockParse : Par BedrockResponse := do
   let t ← readU8
@@ -295,12 +307,8 @@ def bedrockParse : Par BedrockResponse := do
         let m2 ← readUnsigned .little 8
         if m2 != 8671175388723805693 then Par.fail .packetBad
         else do
-          let chunk ← switchEndianChunk 2
-          let remainingLen ← Par.lift ((readUnsigned .big 2).run chunk)
-          let rem ← remainingLength
-          Par.lift (errorByExpectedSize remainingLen rem)
-          let binding ← readCStr
-          Par.lift (bedrockStatus binding)
+          let remainingLen ← bedrockLength
+          bedrockBody remainingLen
 
 /-- `Bedrock::get_info_impl` -/
 def bedrockGetInfoImpl (s : Sock) : Q BedrockResponse := do
